@@ -109,11 +109,19 @@ package core
 //@   ensures [visible-minimal] ret1 == nil && settings.withMinimalBundle ==> stored(store, model.GetArchivePathToBundle(repo, ret0.ID))
 //@   call Get#1 bind ge = $ret1
 //@   ensures [propagate] ge_set && ge != nil ==> ret1 != nil
+// a missing descriptor stays recognisable as such to the caller (whatever is wrapped around it), because
+// getBundleAsync's skip of half-written bundles tests errors.Is(err, ErrNotExists)
+//@   ensures [not-found-stays-not-found] ge_set && ge != nil && errIs(ge, iface(storagestatus.ErrNotExists)) ==> errIs(ret1, iface(storagestatus.ErrNotExists))
 
+// a key without descriptor (upload in progress or interrupted) is skipped, not reported: neither as a
+// bundle nor as a listing error
 //@ func getBundleAsync
 //@   requires store != nil
 //@   call Is#1 assert [sentinel] $target == iface(storagestatus.ErrNotExists)
 //@   call Is#1 assert [err] $err == err
+//@   call downloadBundleDescriptor#1 bind de = $ret1
+//@   send output#1 assert [missing-descriptor-is-not-an-error] de_set && !errIs(de, iface(storagestatus.ErrNotExists))
+//@   send output#2 assert [only-fetched-bundles] de_set && de == nil
 
 //@ func RepoExists
 //@   requires stores != nil && getMetaStore(stores) != nil
@@ -466,6 +474,10 @@ package core
 //@ func PurgeBuildReverseIndex
 //@   call preloadIndexFiles#1 bind ts = $ret2
 //@   call uploader#1 assert [resumed-index-keeps-its-time] ts_set ==> $indexTime == deref(ts)
+// ... and starts numbering its chunks after the last chunk of the run it resumes (uploader's own
+// contract: every chunk it writes has an index greater than options.indexStart)
+//@   call preloadIndexFiles#1 bind li = $ret0
+//@   call uploader#1 assert [resumed-index-continues-after-last-chunk] $options == options && (li_set ==> options.indexStart >= li)
 
 // index chunks: every chunk written by one run gets an index not used before by this run nor by the
 // run it resumes
